@@ -6,15 +6,12 @@ import (
 	"encoding/hex"
 	"encoding/json"
 	"fmt"
-	"regexp"
 
 	"github.com/icon-project/goloop/common"
+	"github.com/icon-project/goloop/server/jsonrpc"
 	"verif/harness/hxlib"
 )
 
-// The RPC validator's expressions are unexported; the harness re-reads them from
-// the source file at build time (go:generate is not used): see regexFromSource.
-var eoaRe, scoreRe *regexp.Regexp
 
 type strIn struct {
 	S   string `json:"s_hex"`
@@ -52,7 +49,7 @@ func obs(a *common.Address, err error) string {
 func oracleStr(s string, pre int) (string, string) {
 	a := receiver(pre)
 	err := a.SetStringStrict(s)
-	re := eoaRe.MatchString(s) || scoreRe.MatchString(s)
+	re := rpcAccepts(s)
 	msg := ""
 	if err == nil {
 		if a.String() != s {
@@ -251,8 +248,29 @@ func replay(raw json.RawMessage) string {
 	return "unknown case type " + in.T
 }
 
+// rpcAccepts asks the REAL JSON-RPC validator (the registered tags t_addr, t_addr_eoa,
+// t_addr_score), not a copy of its regular expressions.
+var rpcValidator = jsonrpc.NewValidator()
+
+func rpcAccepts(s string) bool {
+	any := rpcValidator.Validate(struct {
+		A string `validate:"t_addr"`
+	}{s}) == nil
+	eoa := rpcValidator.Validate(struct {
+		A string `validate:"t_addr_eoa"`
+	}{s}) == nil
+	score := rpcValidator.Validate(struct {
+		A string `validate:"t_addr_score"`
+	}{s}) == nil
+	if any != (eoa || score) {
+		// t_addr must be exactly the union of the two; report as "accepts" so the mismatch with the
+		// strict parser shows up as an oracle failure on this input
+		return any || eoa || score
+	}
+	return any
+}
+
 func main() {
-	eoaRe, scoreRe = regexFromSource()
 	hxlib.Main(hxlib.Spec{
 		ID:   "C36",
 		Rule: "random/sparse/boundary 20-byte ids printed and re-parsed; candidate strings = canonical strings with one mutation class each (case, prefix, length, substitution, newline) plus random strings of critical lengths; byte strings of lengths 0..25 with type byte in {0,1,2}; non-trivial = every address/string case and byte strings of length 20 or 21; distinct = distinct Coq case term",
